@@ -21,14 +21,24 @@ HASH_COMMENTS = ("ISIS", "default")
 NAME, EQ, VAL, LP, RP, LB, RB, COMMA, UNITS, SEMI, BEGIN, ENDKW, END = (
     "NAME", "EQ", "VAL", "LP", "RP", "LB", "RB", "COMMA", "UNITS", "SEMI",
     "BEGIN", "ENDKW", "END")
+DAMAGED = "DAMAGED"   # an unterminated / stray lexical element (fault injection)
+
+
+class Missing:
+    """Expected value of a parameter whose value is absent (C08)."""
+
+    def __repr__(self):
+        return "<missing value>"
 
 
 class Tok:
-    __slots__ = ("kind", "text", "cls", "quoted", "stmt")
+    __slots__ = ("kind", "text", "cls", "quoted", "stmt", "value")
 
-    def __init__(self, kind, text, cls=None, quoted=False, stmt=None):
+    def __init__(self, kind, text, cls=None, quoted=False, stmt=None,
+                 value=None):
         self.kind, self.text, self.cls, self.quoted, self.stmt = \
             kind, text, cls, quoted, stmt
+        self.value = value
 
     def __repr__(self):
         return f"{self.kind}:{self.text!r}"
@@ -240,7 +250,7 @@ def gen_value(rng, reader, doc, toks, ctx, depth=0, allow_units=True,
     odl = reader in ("ODL", "PDS3")
     if r < 0.68 or depth >= (2 if odl else 4):
         text, exp, cls, quoted = gen_simple(rng, reader)
-        toks.append(Tok(VAL, text, cls, quoted))
+        toks.append(Tok(VAL, text, cls, quoted, value=exp))
         doc.meta.add((cls.split(":")[0] + ":" + cls.split(":")[1]
                       if ":" in cls else cls, ctx))
         numeric = cls.startswith(("int", "based", "real"))
@@ -268,7 +278,7 @@ def gen_value(rng, reader, doc, toks, ctx, depth=0, allow_units=True,
         if is_set and odl:
             # ODL sets hold scalars only
             text, exp, cls, quoted = gen_simple(rng, reader)
-            toks.append(Tok(VAL, text, cls, quoted))
+            toks.append(Tok(VAL, text, cls, quoted, value=exp))
             doc.meta.add((cls, c2))
             items.append(exp)
         else:
@@ -482,6 +492,10 @@ def same_value(exp, got, path="$"):
     """None if equal (types included), else (path, why)."""
     if isinstance(exp, Block):
         return (path, "block expected")
+    if isinstance(exp, Missing):
+        ok = isinstance(got, str) and got == "" and hasattr(got, "lineno")
+        return None if ok else (path, f"expected an empty-value placeholder, "
+                                      f"got {got!r}")
     if isinstance(exp, (Q, HQ)):
         if type(got).__name__ != "Quantity":
             return (path, f"expected quantity {exp!r}, got {got!r}")
